@@ -4,6 +4,7 @@ import (
 	"crypto/x509"
 	"fmt"
 	"os"
+	"strings"
 	"sync/atomic"
 	"testing"
 	"time"
@@ -26,12 +27,18 @@ type Case struct {
 	// Prelude: before the case, a certificate issued by the same-name sibling CA (another trusted CA that shares the
 	// issuer's name, e.g. after a re-key) is checked successfully through its own responder
 	Prelude bool `json:"prelude"`
+	// LeafAKI: authorityKeyIdentifier form of the client certificate: "" (keyId) | absent | issuerserial | both |
+	// uri-serial | dns-serial | emptynames-serial (issuer named by a GeneralName that is not a directoryName)
+	LeafAKI string `json:"leaf_aki,omitempty"`
+	// SameSerial: the client certificate has the same serial number as its issuer's certificate (which was issued by
+	// the root: serial numbers are unique per issuer only)
+	SameSerial bool `json:"same_serial,omitempty"`
 	// byte-level mutation of the response (applied after building): -1 none
 	MutPos  int `json:"mut_pos"`
 	MutMask int `json:"mut_mask"`
 }
 
-var signers = []string{"issuer", "issuer", "delegated", "delegated-big", "mimic", "delegated-noeku", "delegated-clientauth", "client", "stranger-embedded", "stranger", "sibling"}
+var signers = []string{"issuer", "issuer", "delegated", "delegated-big", "mimic", "delegated-noeku", "delegated-clientauth", "client", "client-bare", "client-bare", "stranger-embedded", "stranger", "sibling"}
 var kinds = []string{"good", "good", "revoked", "revoked", "unknown", "trylater", "unauthorized", "internal", "malformed", "sigrequired", "garbage", "html", "empty"}
 
 func genCase(t *rapid.T) Case {
@@ -43,6 +50,8 @@ func genCase(t *rapid.T) Case {
 		Prelude: rapid.IntRange(0, 2).Draw(t, "prelude") == 0,
 		MutPos:  -1,
 	}
+	c.LeafAKI = rapid.SampledFrom([]string{"", "", "", "", "", "absent", "issuerserial", "both", "uri-serial", "uri-serial", "dns-serial", "emptynames-serial"}).Draw(t, "leafaki")
+	c.SameSerial = c.Depth == 2 && rapid.Bool().Draw(t, "sameserial")
 	c.Answer.Kind = rapid.SampledFrom(kinds).Draw(t, "kind")
 	c.Answer.Signer = rapid.SampledFrom(signers).Draw(t, "signer")
 	c.Answer.Serial = rapid.SampledFrom([]string{"this", "this", "this", "other"}).Draw(t, "serial")
@@ -99,7 +108,11 @@ func runCase(c Case, x *ev.Ctx) error {
 		root = gen.Issue(gen.CertSpec{Key: "p256b", Subject: gen.CN(name + " root"), SerialHex: "1000", IsCA: true}, nil)
 		ca = gen.Issue(gen.CertSpec{Key: c.CAKey, Subject: gen.CN(name + " ca"), SerialHex: "1001", IsCA: true}, root)
 	}
-	leaf := gen.Issue(gen.CertSpec{Key: "p256f", Subject: gen.CN(name + " client"), SerialHex: "0badc0de", OCSP: []string{o.URL("/ocsp")}, NoEKU: !c.LeafEKU}, ca)
+	leafSerial := "0badc0de"
+	if c.SameSerial {
+		leafSerial = "1001"
+	}
+	leaf := gen.Issue(gen.CertSpec{Key: "p256f", Subject: gen.CN(name + " client"), SerialHex: leafSerial, OCSP: []string{o.URL("/ocsp")}, NoEKU: !c.LeafEKU, AKI: c.LeafAKI}, ca)
 	parties := world.NewOCSPParties(name, ca, leaf)
 	chain := []*x509.Certificate{leaf.Cert, ca.Cert}
 	if c.Depth == 2 {
@@ -126,6 +139,18 @@ func runCase(c Case, x *ev.Ctx) error {
 		}
 	}
 	v := world.Ask(chk, chains)
+	if served == nil && strings.HasSuffix(c.LeafAKI, "-serial") {
+		// no issuer can be identified from such an authority key identifier, so nobody was asked: that is "no answer"
+		noAnswer := "ok"
+		if c.Strict {
+			noAnswer = "error"
+		}
+		if v.Kind != noAnswer {
+			return fmt.Errorf("the responder was never asked (issuer not identifiable from the certificate's authority key identifier %s) but the verdict is %v, 'no answer' means %s", c.LeafAKI, v, noAnswer)
+		}
+		x.Class("responder-not-asked/issuer-not-identifiable-from-aki")
+		return nil
+	}
 	if served == nil {
 		return fmt.Errorf("setup: the responder was never asked (verdict %v)", v)
 	}
@@ -138,11 +163,23 @@ func runCase(c Case, x *ev.Ctx) error {
 	if c.MutPos >= 0 {
 		x.Classf("mutated/authentic=%v", auth)
 	}
-	desc := fmt.Sprintf("response {kind=%s signer=%s serial=%s nextUpdate=%q mutated=%v} strict=%v", c.Answer.Kind, c.Answer.Signer, c.Answer.Serial, c.Answer.NextUpdate, c.MutPos >= 0, c.Strict)
+	desc := fmt.Sprintf("response {kind=%s signer=%s serial=%s nextUpdate=%q mutated=%v} strict=%v leafAKI=%q sameSerialAsIssuer=%v", c.Answer.Kind, c.Answer.Signer, c.Answer.Serial, c.Answer.NextUpdate, c.MutPos >= 0, c.Strict, c.LeafAKI, c.SameSerial)
+	x.Classf("leaf-aki=%s", c.LeafAKI)
 	if auth {
 		want := "ok"
 		if status == ocsp.Revoked {
 			want = "revoked"
+		}
+		unmatchable := strings.HasSuffix(c.LeafAKI, "-serial")
+		noAnswer := "ok"
+		if c.Strict {
+			noAnswer = "error"
+		}
+		if unmatchable && v.Kind == noAnswer && v.Kind != want {
+			// the issuer cannot be identified from such an authority key identifier: finding no issuer (so that even
+			// the authentic answer is no answer) is the conservative side of an only-if property
+			x.Class("authentic-not-used/issuer-not-identifiable-from-aki")
+			return nil
 		}
 		if v.Kind != want {
 			return fmt.Errorf("authentic %s answered %v, want %s", desc, v, want)
@@ -168,7 +205,7 @@ func runCase(c Case, x *ev.Ctx) error {
 	}
 	x.Class("non-authentic")
 	if len(served) > 5 {
-		x.NonTrivial(fmt.Sprintf("forged|%+v|%v|%s|%d|%d|%v|%v", c.Answer, c.Strict, c.CAKey, c.Depth, c.MutPos%32, c.LeafEKU, c.Prelude))
+		x.NonTrivial(fmt.Sprintf("forged|%+v|%v|%s|%d|%d|%v|%v|%s|%v", c.Answer, c.Strict, c.CAKey, c.Depth, c.MutPos%32, c.LeafEKU, c.Prelude, c.LeafAKI, c.SameSerial))
 	}
 	return nil
 }
@@ -177,7 +214,7 @@ var spec = ev.Spec[Case]{
 	ID:          "C05",
 	Gen:         genCase,
 	Run:         runCase,
-	Rule:        "rapid draws one OCSP response for the presented certificate: signer in {issuer, issuer-delegated responder with OCSPSigning EKU, issuer-signed certificate without any EKU, issuer-signed certificate with clientAuth EKU, the client certificate itself (with / without an EKU extension), self-signed stranger with or without embedded certificate, same-name sibling CA}, serial in {this, other}, status in {good, revoked, unknown}, response status in {successful, tryLater, unauthorized, internalError, malformedRequest, sigRequired}, garbage / HTML / empty bodies, nextUpdate in {absent, future, past}, and in a quarter of the cases a single-bit or byte mutation at a drawn position of an otherwise authentic response. Whether the served bytes are authentic is decided by the reference (library parse bound to the leaf and the issuer + OCSPSigning check on an embedded responder). Oracle: an authentic answer decides by its status; a non-authentic one is no answer: strict => the handshake errors, lenient => accepted even if it says revoked, and nothing is cached (the responder then answers authentically 'revoked' and the next handshake must be rejected, with a 30 s cache configured). Non-trivial: the bytes are a non-empty response; distinct by (answer shape, strict, key, depth, mutation bucket).",
+	Rule:        "rapid draws one OCSP response for the presented certificate: signer in {issuer, issuer-delegated responder with OCSPSigning EKU, issuer-signed certificate without any EKU, issuer-signed certificate with clientAuth EKU, the client certificate itself (with / without an EKU extension; embedded in the response or not), self-signed stranger with or without embedded certificate, same-name sibling CA}, serial in {this, other}, status in {good, revoked, unknown}, response status in {successful, tryLater, unauthorized, internalError, malformedRequest, sigRequired}, garbage / HTML / empty bodies, nextUpdate in {absent, future, past}, the client certificate's authorityKeyIdentifier in {keyId, absent, issuer+serial, both, issuer named by a URI / dNSName / empty GeneralNames + serial}, optionally the client certificate carrying the same serial number as its issuer's certificate, and in a quarter of the cases a single-bit or byte mutation at a drawn position of an otherwise authentic response. Whether the served bytes are authentic is decided by the reference (library parse bound to the leaf and the issuer + OCSPSigning check on an embedded responder). Oracle: an authentic answer decides by its status; a non-authentic one is no answer: strict => the handshake errors, lenient => accepted even if it says revoked, and nothing is cached (the responder then answers authentically 'revoked' and the next handshake must be rejected, with a 30 s cache configured). Non-trivial: the bytes are a non-empty response; distinct by (answer shape, strict, key, depth, mutation bucket).",
 	Assumptions: []string{"golang.org/x/crypto/ocsp's authenticated parse (ParseResponseForCert with an issuer) is the trusted reference for signature and serial matching"},
 }
 
